@@ -108,6 +108,37 @@ pub fn oracle_c13(a: &Ty, b: &Ty, r: &Rel, coherent: bool, _registered: bool, re
             }
         }
     }
+    // a `.{ … }` literal (anonymous struct) where a struct is expected: its members are the values
+    // the property speaks about — a member of nominal type must not end up in a member of a
+    // DIFFERENT nominal type (seeded change C13_3: a layout-only fast path for this pair)
+    if let Ty::AnonStruct { members: am } = a {
+        // (an expected ANONYMOUS struct type only arises from another literal: not a nominal type,
+        // the property does not speak about it — as for `allowed`)
+        let bm = match b {
+            Ty::ConcreteStruct { members, .. } => Some(members),
+            _ => None,
+        };
+        if let Some(bm) = bm {
+            if r.fit != Some(false) && am.len() == bm.len() {
+                for x in am.iter() {
+                    if let Some(y) = bm.iter().find(|y| y.name == x.name) {
+                        if is_nominal(&x.ty) && in_scope(&x.ty, &y.ty) {
+                            rep.hit("nominal-member-of-anonymous-struct");
+                            if !allowed(&x.ty, &y.ty) {
+                                rep.oracle_fail(
+                                    &format!("nominal_fit:member-of-anonymous-struct:{}", label(&x.ty, &y.ty)),
+                                    input(),
+                                    json!("accepted"),
+                                    json!("rejected"),
+                                    "a member of nominal type of a `.{ … }` literal is implicitly accepted where the struct expects a different nominal type",
+                                );
+                            }
+                        }
+                    }
+                }
+            }
+        }
+    }
     // explicit casts between a distinct type and its underlying type are accepted, both ways
     if let Ty::Distinct { sub_ty, .. } = a {
         if **sub_ty == *b && r.cast != Some(true) {
